@@ -122,9 +122,86 @@ impl LruFlavor for FRsCb {
     }
 }
 
+/// value-type twin: the same calls on a `RawLRU<u32, ()>` (zero-sized value, untracked key, fixed
+/// SipHash). The recency order of a RawLRU must not depend on the value type (C06 holds for every
+/// `V`): after every call the two key orders are compared. Harness-side only: no tracked object,
+/// no numbered call into user code, allocations outside the ledger.
+pub type Twin = RawLRU<u32, (), DefaultEvictCallback, std::hash::BuildHasherDefault<std::collections::hash_map::DefaultHasher>>;
+
+fn twin_apply(z: &mut Twin, op: &Op) {
+    use Code::*;
+    match op.code {
+        Put => {
+            z.put(op.k, ());
+        }
+        Get => {
+            z.get(&op.k);
+        }
+        GetMut => {
+            z.get_mut(&op.k);
+        }
+        Peek => {
+            z.peek(&op.k);
+        }
+        PeekMut => {
+            z.peek_mut(&op.k);
+        }
+        Contains => {
+            z.contains(&op.k);
+        }
+        Remove => {
+            z.remove(&op.k);
+        }
+        Purge => z.purge(),
+        Resize => {
+            z.resize(crate::ops::resize_arg(op.n));
+        }
+        GetLru => {
+            z.get_lru();
+        }
+        GetLruMut => {
+            z.get_lru_mut();
+        }
+        GetMru => {
+            z.get_mru();
+        }
+        GetMruMut => {
+            z.get_mru_mut();
+        }
+        PeekLru => {
+            z.peek_lru();
+        }
+        PeekLruMut => {
+            z.peek_lru_mut();
+        }
+        PeekMru => {
+            z.peek_mru();
+        }
+        PeekMruMut => {
+            z.peek_mru_mut();
+        }
+        PeekOrPut => {
+            z.peek_or_put(op.k, ());
+        }
+        PeekMutOrPut => {
+            z.peek_mut_or_put(op.k, ());
+        }
+        ContainsOrPut => {
+            z.contains_or_put(op.k, ());
+        }
+        RemoveLru => {
+            z.remove_lru();
+        }
+        _ => {}
+    }
+}
+
 pub struct LruSubj<K: SimKey, F: LruFlavor> {
     pub c: Option<RawLRU<K, TV, F::E, F::S>>,
     cb: Option<u32>,
+    /// the value-type twin; dropped for good when a call on `c` did not return (fault, watchdog)
+    z: Option<Twin>,
+    z_pending: bool,
     _f: PhantomData<F>,
 }
 
@@ -151,6 +228,8 @@ impl<K: SimKey, F: LruFlavor> LruSubj<K, F> {
                 return Ok(LruSubj {
                     c: Some(c),
                     cb: None,
+                    z: None,
+                    z_pending: false,
                     _f: PhantomData,
                 });
             }
@@ -158,9 +237,12 @@ impl<K: SimKey, F: LruFlavor> LruSubj<K, F> {
         match lib!(F::build::<K>(cap, &hs)) {
             Ok(c) => {
                 let cb = c_cb_id::<K, F>(&c);
+                let z = crate::alloc::harness_scope(|| Twin::with_hasher(cap, Default::default()).ok());
                 Ok(LruSubj {
                     c: Some(c),
                     cb,
+                    z,
+                    z_pending: false,
                     _f: PhantomData,
                 })
             }
@@ -171,30 +253,12 @@ impl<K: SimKey, F: LruFlavor> LruSubj<K, F> {
         LruSubj {
             c: Some(c),
             cb: None,
+            z: None,
+            z_pending: false,
             _f: PhantomData,
         }
     }
-}
-
-// the callback id is not readable from the cache; the flavor's `make()` allocated the latest log
-fn c_cb_id<K: SimKey, F: LruFlavor>(_c: &RawLRU<K, TV, F::E, F::S>) -> Option<u32> {
-    if <F::E as Cb>::HAS {
-        Some(crate::world::latest_cb_log())
-    } else {
-        None
-    }
-}
-
-pub fn kv_conv<'a, K: SimKey>(t: (&'a K, &'a TV)) -> Val {
-    Val::KV(t.0.ident_checked("key (yielded by iterator)"), t.1.read())
-}
-
-impl<K: SimKey, F: LruFlavor> Subject for LruSubj<K, F> {
-    fn kind(&self) -> Kind {
-        Kind::Lru
-    }
-
-    fn apply(&mut self, op: &Op) -> Val {
+    fn apply_main(&mut self, op: &Op) -> Val {
         let c = match self.c.as_mut() {
             Some(c) => c,
             None => return Val::Unsupported,
@@ -309,6 +373,74 @@ impl<K: SimKey, F: LruFlavor> Subject for LruSubj<K, F> {
             _ => Val::Unsupported,
         }
     }
+}
+
+// the callback id is not readable from the cache; the flavor's `make()` allocated the latest log
+fn c_cb_id<K: SimKey, F: LruFlavor>(_c: &RawLRU<K, TV, F::E, F::S>) -> Option<u32> {
+    if <F::E as Cb>::HAS {
+        Some(crate::world::latest_cb_log())
+    } else {
+        None
+    }
+}
+
+pub fn kv_conv<'a, K: SimKey>(t: (&'a K, &'a TV)) -> Val {
+    Val::KV(t.0.ident_checked("key (yielded by iterator)"), t.1.read())
+}
+
+impl<K: SimKey, F: LruFlavor> Subject for LruSubj<K, F> {
+    fn kind(&self) -> Kind {
+        Kind::Lru
+    }
+
+    fn apply(&mut self, op: &Op) -> Val {
+        if self.z_pending || crate::world::faults_fired() > 0 {
+            // the previous call unwound (the twin has not seen it), or a fault fired somewhere in
+            // this run: after a fault nothing is required of the order any more
+            self.z_pending = false;
+            if let Some(z) = self.z.take() {
+                crate::alloc::harness_scope(move || drop(z));
+            }
+        }
+        self.z_pending = self.z.is_some();
+        let out = self.apply_main(op);
+        self.z_pending = false;
+        if let (Some(c), Some(z)) = (self.c.as_ref(), self.z.as_mut()) {
+            let bad = crate::alloc::harness_scope(|| {
+                twin_apply(z, op);
+                let n = lib!(c.len());
+                if n != z.len() {
+                    return Some(format!("len {} vs {}", n, z.len()));
+                }
+                if n <= 48 {
+                    let a: Vec<u32> = lib!(c.keys()).map(|k| k.raw().0).collect();
+                    let b: Vec<u32> = z.keys().copied().collect();
+                    if a != b {
+                        return Some(format!("keys (most recent first) {:?} vs {:?}", a, b));
+                    }
+                } else {
+                    let a = (lib!(c.peek_mru()).map(|(k, _)| k.raw().0), lib!(c.peek_lru()).map(|(k, _)| k.raw().0));
+                    let b = (z.peek_mru().map(|(k, _)| *k), z.peek_lru().map(|(k, _)| *k));
+                    if a != b {
+                        return Some(format!("(mru, lru) {:?} vs {:?}", a, b));
+                    }
+                }
+                None
+            });
+            if let Some(d) = bad {
+                crate::world::report(
+                    "C06",
+                    "value_type_dependence",
+                    format!("after {}: RawLRU<K, V> and RawLRU<u32, ()> driven by the same calls differ: {}", op.show(), d),
+                );
+                // one report per subject
+                if let Some(z) = self.z.take() {
+                    crate::alloc::harness_scope(move || drop(z));
+                }
+            }
+        }
+        out
+    }
 
     fn snapshot(&self, relaxed: bool) -> Alpha {
         let c = self.c.as_ref().expect("snapshot of destroyed subject");
@@ -338,14 +470,25 @@ impl<K: SimKey, F: LruFlavor> Subject for LruSubj<K, F> {
         // the clone of the callback registers a new log; if none appeared the clone has no
         // (or a shared) callback and nothing will be attributed to it
         let cb = if crate::world::cb_log_count() > before { c_cb_id::<K, F>(&d) } else { None };
+        // (a call that unwound leaves `z_pending` set: that twin is stale and is not handed on)
+        let z = if self.z_pending || crate::world::faults_fired() > 0 {
+            None
+        } else {
+            self.z.as_ref().map(|z| crate::alloc::harness_scope(|| z.clone()))
+        };
         Some(Box::new(LruSubj::<K, F> {
             c: Some(d),
             cb,
+            z,
+            z_pending: false,
             _f: PhantomData,
         }))
     }
 
     fn destroy(&mut self) {
+        if let Some(z) = self.z.take() {
+            crate::alloc::harness_scope(move || drop(z));
+        }
         if let Some(c) = self.c.take() {
             lib!(drop(c));
         }
